@@ -170,6 +170,37 @@ CLAIMED = {
    text="Model of AtDate/AtTime/RoundToNearest/WasAutomatic and the stop fallback in coq/Model/Commands.v; theorems in coq/Properties/C17.v as far as proved (round_spec, at_time_spec, stop_fallback_spec). Tied to the code by a clock-face sweep: start/stop/switch without --time at every minute x 8 roundings x date selections x record layouts, and `total --now` at every minute; oracles: abstract model (expected offsets, failures) and no-crash.",
    design="§4 C17", technique="Coq proof (lia / lifted clock-face sweep) over hand model; exhaustive clock sweep correspondence",
    note=TB + "Model reflects fix F6."),
+ "C13": dict(
+   text="Theorems in coq/Properties/C13.v over the executable model of klog's query layer (coq/Model/Query.v: service.Filter with "
+        "reduceRecordToMatchingTags / ...EntryTypes, service.Sort, FilterArgs.ApplyFilter statement by statement incl. every PlusDays / Period() / "
+        "Previous() panic as Crash, SortArgs.ApplySort, the date / period / tag / entry-type decoders and kong's comma-separated --tag list): "
+        "(1) service.Filter = filter_map of a DECLARATIVE selection: a record is kept iff its date satisfies every date clause (day-number comparisons on "
+        "calendar dates) and it has a matching entry or - without a type clause - its own summary carries every queried tag; its entries are exactly the "
+        "matching ones (tags of record summary + entry summary carry all queried tags in C14's sense, and the entry is of the queried type) in original "
+        "order; date, summary, should-total untouched; record order preserved; (2) a query = type filter o tag filter o date filter, the three commute "
+        "pairwise, and matching is the conjunction of the parts; (3) one theorem per flag: --since/--until inclusive, --after/--before strict (via "
+        "PlusDays +-1 and C15's day-number theorems), --date/--today/--yesterday/--tomorrow, --period = [since, until], --this-* = the dates whose C15 "
+        "period is the clock's period, --last-* = the period that ends the day before the clock's period begins; which flag wins when several compete; the "
+        "query is defined exactly when every needed neighbour date / period is inside 0000..9999, otherwise ApplyFilter panics; (4) sorting: the executable "
+        "stable insertion sort meets the specification `permutation + ordered by date`, preserves the multiset, is stable, and ANY function meeting the "
+        "specification yields the same date sequence and per date the same multiset of records - exactly what the correspondence compares, since Go's "
+        "unstable sort.Slice with klog's non-strict comparator is deliberately not modelled. Tied to the code by running the REAL command lines `klog print "
+        "--no-style` (output parsed back) and `klog json` (decoded) through klog.Run with a controlled clock on generated files and flag combinations "
+        "(dates clustered at year / ISO-week 52/53/1 / quarter / month boundaries, leap days, years 0000 and 9999, duplicates; query dates equal to record "
+        "dates and their neighbours; all 16 relative shortcuts with the clock around period boundaries; tags with/without values, quoted, mixed case, in "
+        "record and entry summaries, comma lists; 13 spellings of the 5 entry types; --sort on files of up to 120 records with many ties), compared with "
+        "the extracted model and judged by an independent Python reference selection over the generator's own AST (datetime / isocalendar).",
+   design="§4 C13", technique="Coq proof (list induction, option-Kleisli composition, Permutation/StronglySorted, reuse of C15 period_tiles / previous_period / "
+                             "plus_days and C14 tag-set lemmas) over hand model; extracted-model-vs-Go differential correspondence through the real CLI; "
+                             "independent reference-selection oracle",
+   note=TB + "Axioms: none (Closed under the global context, 36 theorems incl. 2 refuted: C13_args_every_clause_refuted = known finding K13a, several date "
+             "clauses for one bound are not intersected but silently override each other (shortcut > after/before > period > since/until; tomorrow > "
+             "yesterday > today > date); C13_args_total_refuted = K13b, a relative shortcut panics when its (previous) period leaves 0000..9999 although the "
+             "clock is inside 0000-01-02..9999-12-30 (K4 reached from the command line)). Observation through `klog print` shows a should-total of 0 minutes "
+             "like an absent one (C09); `klog json` shows it as 0. Summary.Tags() is taken as C14's summary_tags (C14_summary_tags: equal on every input, no "
+             "panic). strings.ToUpper in the entry-type decoder and kong's backslash escape in --tag lists are modelled for ASCII / backslash-free arguments "
+             "only. service.Filter narrows records with SetEntries on the caller's own objects (suite `aliasing` counts it: a note, nothing observable at "
+             "print/json). 'duration-positive' includes 0m (>= 0), as the code does; the property text does not say."),
 }
 
 NOT_YET = {}
